@@ -54,6 +54,27 @@ func src(fset *token.FileSet, n ast.Node) string {
 	return strings.Join(strings.Fields(b.String()), " ")
 }
 
+// fieldList prints a parameter/result list as "(a T, b U)"; nil → "".
+func fieldList(fset *token.FileSet, fl *ast.FieldList) string {
+	if fl == nil {
+		return ""
+	}
+	var parts []string
+	for _, f := range fl.List {
+		t := src(fset, f.Type)
+		if len(f.Names) == 0 {
+			parts = append(parts, t)
+			continue
+		}
+		var ns []string
+		for _, n := range f.Names {
+			ns = append(ns, n.Name)
+		}
+		parts = append(parts, strings.Join(ns, ", ")+" "+t)
+	}
+	return "(" + strings.Join(parts, ", ") + ")"
+}
+
 func nasTypeDir() string { return filepath.Join(repo, "src/free5gclib/nas/nasType") }
 
 func parseIEShapes() (map[string]*ieShape, []string, error) {
@@ -155,7 +176,7 @@ func parseIEShapes() (map[string]*ieShape, []string, error) {
 					return nil, nil, fail("%s: %s: result is not a named *%s", pos, fd.Name.Name, tn)
 				}
 				r := fd.Type.Results.List[0].Names[0].Name
-				params := src(fset, fd.Type.Params)
+				params := fieldList(fset, fd.Type.Params)
 				switch {
 				case params == "(iei uint8)" && body == fmt.Sprintf("{ %s = &%s{} %s.SetIei(iei) return %s }", r, tn, r, r):
 					s.newSetsIei = true
@@ -177,11 +198,8 @@ func parseIEShapes() (map[string]*ieShape, []string, error) {
 			if !ok || !strings.HasPrefix(rt, "*") {
 				return nil, nil, fail("%s: method %s on %s", pos, fd.Name.Name, rt)
 			}
-			sig := src(fset, fd.Type.Params)
-			res := ""
-			if fd.Type.Results != nil {
-				res = src(fset, fd.Type.Results)
-			}
+			sig := fieldList(fset, fd.Type.Params)
+			res := fieldList(fset, fd.Type.Results)
 			switch fd.Name.Name {
 			case "GetIei":
 				if sig != "()" || res != "(iei uint8)" {
